@@ -34,6 +34,10 @@ theorem ok_unspec {s s' : St} {op : Op} (E : ∃ val, Eff s s' op.target val)
   obtain ⟨val, E⟩ := E
   exact ⟨val, E, fun x h => by rw [hx] at h; cases h⟩
 
+theorem allSome_map : ∀ (c : List Nat), allSome (c.map some) = some c
+  | [] => rfl
+  | x :: t => by simp only [List.map_cons, allSome, allSome_map t, Option.map_some]
+
 theorem step_ok {s s' : St} (g : Good s) {op : Op} (e : step s op = some s') : StepOk s s' op := by
   have h := g.inv
   have T := g.temps
@@ -279,8 +283,21 @@ theorem step_ok {s s' : St} (g : Good s) {op : Op} (e : step s op = some s') : S
   | replaceS v wn wr_ =>
     simp only [step] at e
     split at e
-    · rename_i c; have V := valid_facts c.1; have Vn := valid_facts c.2.1
-      exact ok_unspec (eff_replaceS h V.1 Vn.1 V.2.2.2.2.1 V.2.1 (T _ (Nat.le_refl _)) e) rfl
+    · rename_i c; have V := valid_facts c.1; have Vn := valid_facts c.2.1; have Vr := valid_facts c.2.2
+      have generic := eff_replaceS h V.1 Vn.1 V.2.2.2.2.1 V.2.1 (T _ (Nat.le_refl _)) e
+      cases hc : allSome (absVar s v) with
+      | none => exact ok_unspec generic (by simp [Spec.newVal, hc])
+      | some cc =>
+        cases hn : allSome (absVar s wn) with
+        | none => exact ok_unspec generic (by simp [Spec.newVal, hc, hn])
+        | some nd =>
+          by_cases hz : 0 ∉ cc ∧ 0 ∉ nd
+          · exact ok_of (eff_replaceS_val h V.1 Vn.1 V.2.2.2.2.1 V.2.1 Vr.2.1 (T _ (Nat.le_refl _)) hc hn hz.1 hz.2 e) (by
+              intro x hx
+              simp only [Spec.newVal, hc, hn, Option.bind_some, hz, not_false_eq_true, and_self, if_true,
+                Option.some.injEq] at hx
+              exact hx)
+          · exact ok_unspec generic (by simp only [Spec.newVal, hc, hn, Option.bind_some, hz, if_false])
     · cases e
   | replaceL v nd rp =>
     simp only [step] at e
@@ -294,11 +311,29 @@ theorem step_ok {s s' : St} (g : Good s) {op : Op} (e : step s op = some s') : S
       have E2 := eff_ctorPtr E1.inv (by rw [E1.n]; exact t2) h2
       have a0 : absVar s2 (userVars s) = [] := by
         rw [E2.other _ (by omega), E1.other _ (by omega)]; exact T _ (Nat.le_refl _)
-      obtain ⟨val, E3⟩ := eff_replaceS E2.inv (v := v) (wn := userVars s + 1) (wr_ := userVars s + 2) (tmp := userVars s)
-        (by rw [E2.n, E1.n]; exact hv) (by rw [E2.n, E1.n]; exact t1) (by rw [E2.n, E1.n]; exact t0) n0 a0 h3
+      have av : absVar s2 v = absVar s v := by rw [E2.other v n2, E1.other v n1]
+      have an : absVar s2 (userVars s + 1) = nd.map some := by rw [E2.other _ (by omega), E1.self]
+      have ar : absVar s2 (userVars s + 2) = rp.map some := E2.self
+      have hv2 : v < s2.n := by rw [E2.n, E1.n]; exact hv
+      have ht1 : userVars s + 1 < s2.n := by rw [E2.n, E1.n]; exact t1
+      have ht0 : userVars s < s2.n := by rw [E2.n, E1.n]; exact t0
+      obtain ⟨val, E3, hval⟩ : ∃ val, Eff s2 s3 v val ∧
+          (∀ cc, allSome (absVar s v) = some cc → 0 ∉ cc → 0 ∉ nd → val = Spec.replaceAll nd (rp.map some) cc) := by
+        by_cases dom : ∃ cc, allSome (absVar s v) = some cc ∧ 0 ∉ cc ∧ 0 ∉ nd
+        · obtain ⟨cc, hc, hz1, hz2⟩ := dom
+          have E := eff_replaceS_val E2.inv (v := v) (wn := userVars s + 1) (wr_ := userVars s + 2) (tmp := userVars s)
+            hv2 ht1 ht0 n0 (by omega) a0 (c := cc) (nd := nd) (by rw [av]; exact hc) (by rw [an]; exact allSome_map nd)
+            hz1 hz2 h3
+          refine ⟨_, E, ?_⟩
+          intro cc' hc' _ _
+          rw [hc] at hc'; injection hc' with hc'; subst hc'
+          rw [ar]
+        · obtain ⟨val, E⟩ := eff_replaceS E2.inv (v := v) (wn := userVars s + 1) (wr_ := userVars s + 2)
+            (tmp := userVars s) hv2 ht1 ht0 n0 a0 h3
+          exact ⟨val, E, fun cc hc h1 h2 => absurd ⟨cc, hc, h1, h2⟩ dom⟩
       have E4 := eff_setEmpty E3.inv (v := userVars s + 1) (by rw [E3.n, E2.n, E1.n]; exact t1)
       have E5 := eff_setEmpty E4.inv (v := userVars s + 2) (by rw [E4.n, E3.n, E2.n, E1.n]; exact t2)
-      refine ok_unspec ⟨val, E5.inv, by rw [E5.n, E4.n, E3.n, E2.n, E1.n], by rw [E5.regs, E4.regs, E3.regs, E2.regs, E1.regs], ?_, ?_⟩ rfl
+      refine ⟨val, ⟨E5.inv, by rw [E5.n, E4.n, E3.n, E2.n, E1.n], by rw [E5.regs, E4.regs, E3.regs, E2.regs, E1.regs], ?_, ?_⟩, ?_⟩
       · show absVar _ v = val
         rw [E5.other v n2, E4.other v n1, E3.self]
       · intro u hu
@@ -308,6 +343,14 @@ theorem step_ok {s s' : St} (g : Good s) {op : Op} (e : step s op = some s') : S
         · by_cases u1 : u = userVars s + 1
           · subst u1; rw [E5.other _ u2, E4.self]; exact (T _ (by omega)).symm
           · rw [E5.other u u2, E4.other u u1, E3.other u hu', E2.other u u2, E1.other u u1]
+      · intro x hx
+        simp only [Spec.newVal, Option.bind_eq_some_iff] at hx
+        obtain ⟨cc, hc, hx⟩ := hx
+        split at hx
+        · rename_i hz
+          injection hx with hx
+          rw [← hx]; exact hval cc hc hz.1 hz.2
+        · cases hx
     · cases e
   | printf v f =>
     simp only [step] at e
